@@ -391,7 +391,13 @@ class Run:
         ev = {"property_id": self.pid, "tier": self.tier, "seed": seed(), "level": self.level,
               "coverage": self.cov, "assumptions": self.assumptions, "wall_s": round(wall, 2),
               "violations": len(self.violations)}
-        with open(os.path.join(EVIDENCE, self.pid + ".json"), "w") as fh:
+        evdir = EVIDENCE
+        if self.pid.startswith("X"):
+            # extension checks (beyond the twenty listed properties) keep their evidence apart:
+            # /verif/evidence holds exactly one file per claimed property of MANIFEST.json
+            evdir = os.path.join(VERIF, "extra", "evidence")
+            os.makedirs(evdir, exist_ok=True)
+        with open(os.path.join(evdir, self.pid + ".json"), "w") as fh:
             json.dump(ev, fh, indent=1, default=str)
         log("%s %s: states=%d transitions=%d impl_traces=%d violations=%d known=%s wall=%.1fs" %
             (self.pid, self.tier, self.cov["states"], self.cov["transitions"],
